@@ -45,6 +45,20 @@ def gen_cases(tier, seed):
         cases.append(asmgen.asm_case(0, [(1, pool[i]), (1, pool[j])])); tags.append("pair-reset")
     for i, j in pairs[: len(pairs) // 3]:
         cases.append(asmgen.asm_case(0, [(1, pool[i]), (0, pool[j])])); tags.append("pair-noreset")
+    # the process CONFIGURATION is not assembler state: with the stack extension switched on (once, before the first
+    # assembly) it stays on across every reset - sources using the extension, alone, in pairs, in sequences, repeated
+    spool = [t for t in pool if any(w in t.lower() for w in ("push", "pop", "rets", "call"))] + \
+            ["push r1\npop r2\nhalt\n", "call f\nhalt\nf rets\n", "a push r0\nb pop r0\nadd r0 r0\n", "halt\n", "a halt\nbr a\n"]
+    for s in spool:
+        cases.append(asmgen.asm_case(1, [(1, s)])); tags.append("alone")
+    for i, a in enumerate(spool):
+        for j, b in enumerate(spool):
+            cases.append(asmgen.asm_case(1, [(1, a), (1, b)])); tags.append("pair-reset")
+    for _ in range(60 if tier == "quick" else 1500):
+        seq = [(1, rnd.choice(spool)) for _ in range(rnd.choice([3, 4, 6]))]
+        cases.append(asmgen.asm_case(1, seq)); tags.append("seq-reset")
+        s = rnd.choice(spool)
+        cases.append(asmgen.asm_case(1, [(1, s), (1, s), (1, s)])); tags.append("repeat")
     # triples and repetition
     for _ in range(400 if tier == "quick" else 5000):
         k = rnd.choice([3, 3, 4, 6])
@@ -80,22 +94,23 @@ def correspondence(ctx, violations, known_hits):
     alone = {}
     for c, t, a in zip(cases, tags, ri):
         if t == "alone" and a:
-            alone[asmcommon.decode_case(c)[1][0][1]] = a[0]
+            dc = asmcommon.decode_case(c)
+            alone[(dc[0], dc[1][0][1])] = a[0]
     direct = 0
     for c, t, a in zip(cases, tags, ri):
         if t in ("pair-reset", "seq-reset", "repeat", "table-size") and a:
-            srcs = asmcommon.decode_case(c)[1]
+            ft, srcs = asmcommon.decode_case(c)[:2]
             for k, (reset, text) in enumerate(srcs):
-                if text in alone and k < len(a):
+                if (ft, text) in alone and k < len(a):
                     direct += 1
-                    if a[k] != alone[text] and len(violations) < 10:
+                    if a[k] != alone[(ft, text)] and len(violations) < 10:
                         violations.append({"kind": "history-dependent-result", "case": c, "sources": srcs, "source_index": k,
-                                           "in_sequence": a[k], "alone": alone[text]})
+                                           "in_sequence": a[k], "alone": alone[(ft, text)]})
     ctx.cleanup()
     return {
         "evaluations": r["evaluations"], "distinct_nontrivial": len(r["sigs"]),
         "rule": f"pool of {len(pool)} sources (valid, failing in the lexer, failing after labels were recorded, sharing label names, "
-                "case-differing labels, .break/.orig interleavings) : each alone, ordered pairs with a reset in between (all pairs in the "
+                "case-differing labels, .break/.orig interleavings; the extension's sources also with the feature switched on once for the whole sequence) : each alone, ordered pairs with a reset in between (all pairs in the "
                 "thorough tier), a third of them also WITHOUT reset (to tie the symbol-table model to the code), random sequences of "
                 "3-6 with resets, threefold repetition; sources recording N labels for N around every growth step of a hash table (1..200 [..2000]) followed by sources that repeat them, share a label name or only reference a label of the predecessor; plus a direct comparison of the implementation's answer for B in a sequence "
                 "with its answer for B alone; distinct = distinct (sequence class, outcome, diagnostic)",
